@@ -26,6 +26,8 @@ SCENARIOS = [
     ("loop-index-mutation", "pub fn main(a: [u8; 3], i: usize) -> [u8; 3] { let mut r = a; for j in 0usize..2usize { if j == i { r[j] = r[j + 1usize]; } } r }"),
     ("dynamic-index-write", "pub fn main(a: [(u8, bool); 3], i: usize, v: u8) -> ([(u8, bool); 3], u8) { let mut r = a; r[i].0 = v; (r, a[0].0 ^ a[1].0 ^ a[2].0) }"),
     ("block-scope-ends", "pub fn main(a: u8, b: u8) -> (u8, u8) { let x = a; let mut y = b; { let x = b; y = x ^ 1u8; { let y = a; } } (x, y) }"),
+    ("loop-zero-sized-elements", "enum U { Only }\npub fn main(x: u8, u: [U; 3]) -> u8 { let mut c = x; for e in u { c = c ^ 1u8; } c }"),
+    ("loop-unit-elements", "pub fn main(x: u8) -> u8 { let mut c = x; for e in [(), ()] { c = c + 1u8; } c }"),
     ("assign-index-effect", "pub fn main(mut a: [u8; 3], v: u8) -> [u8; 3] { a[{ a[1usize] = 7u8; 0usize }] = v; a }"),
     ("assign-nested-index-effect", "pub fn main(mut a: [[u8; 2]; 2], v: u8) -> [[u8; 2]; 2] { a[0usize][{ a[1usize][1usize] = 7u8; 0usize }] = v; a }"),
     ("assign-index-effect-other-var", "pub fn main(mut a: [u8; 3], v: u8) -> ([u8; 3], usize) { let mut i = 0usize; a[{ i = i + 2usize; i }] = v; (a, i) }"),
